@@ -166,6 +166,12 @@ func (fv *FuncVC) globalVar(o *types.Var, st *State) Val {
 						fv.th.axioms = append(fv.th.axioms, mkNot(mkEq(name, "nil")))
 					}
 				}
+				// regexp.MustCompile / template.Must ... never return nil
+				if c, ok := init.(*ast.CallExpr); ok {
+					if se, ok := c.Fun.(*ast.SelectorExpr); ok && strings.HasPrefix(se.Sel.Name, "Must") {
+						fv.th.axioms = append(fv.th.axioms, mkNot(mkEq(name, "nil")))
+					}
+				}
 			}
 		}
 	}
